@@ -261,7 +261,41 @@ def _state_strategy(draw, tier='quick'):
     return case
 
 
+def check_high_order(case, ctx):
+    """series orders up to 30: constant-load kG0 vs the exact separable reference."""
+    from ..ref import exact
+    pd = pkg.make_pdef(case)
+    N = case['N']
+    name = 'kG0.high-order[%s]' % case['model']
+    ctx.nontrivial = max(case['m'], case['n']) >= 14
+    ctx.label('model:' + case['model'], 'max(m,n):%d' % (max(case['m'], case['n']) // 5 * 5))
+    p = pkg.make_panel(case)
+    p.Nxx, p.Nyy, p.Nxy = N
+    with package(name):
+        K = dense(p.calc_kG0(silent=True))
+    ref = exact.kG0(pd, N[0], N[1], N[2])
+    kx = np.max(np.abs(exact.kG0(pd, 1., 0., 0.)))
+    ky = np.max(np.abs(exact.kG0(pd, 0., 1., 0.)))
+    sc = abs(N[0]) * kx + abs(N[1]) * ky + abs(N[2]) * np.sqrt(kx * ky)      # natural scale, as in _natural_scale
+    if sc == 0:
+        ctx.ok(not np.any(K != 0), name, 'no out-of-plane amplitude is active: the matrix must be zero')
+        return
+    ctx.close(name, K, ref, 1e-10, bucket=name, scale=sc)
+    ctx.close('symmetry', K, K.T, 1e-13, bucket=name + '.symmetry')
+    _w_only(ctx, K, pd, 0, pd.ndof, name)
+
+
+@st.composite
+def _high_order_strategy(draw, tier='quick'):
+    case = draw(pkg.high_order_case(tier))
+    case['N'] = [round(draw(gen.fl(-100., 100.)), 3) for _ in range(3)]
+    return case
+
+
 SUBS = [
+    Sub('high_order', _high_order_strategy, check_high_order, quick=48, thorough=400,
+        rule='plate / w-only / cylindrical panels with series orders 7..30 (quick: m*n <= 330): calc_kG0 vs the exact separable reference '
+             '(rational 1-D integrals); non-trivial = an order >= 14', shards_quick=16),
     Sub('const', _const_strategy, check_const, quick=320, thorough=6000,
         rule='all four models x sub-interval/tiling x placement x load triples (mixed signs, pure shear, single components); '
              'calc_kG0 vs Hessian of the pre-stress work; non-trivial = Nxy != 0 or Nxx*Nyy < 0', shards_quick=16),
